@@ -85,7 +85,11 @@ def parse_pls(data):
     for section in cp.sections():
         if section.lower() != "playlist":
             continue
-        for i in range(cp.getint(section, "numberofentries")):
+        try:
+            count = cp.getint(section, "numberofentries")
+        except (configparser.Error, ValueError):
+            continue
+        for i in range(count):
             yield cp.get(section, f"file{i + 1}").strip("\"'")
 
 
